@@ -90,13 +90,27 @@ func opaqueTags() []uint8 {
 	return opaqueList
 }
 
-func tagIsOpaque(tag uint8) (ok bool) {
+// tagIsOpaque tries bodies of every length the workloads use (a typed view may depend on the
+// body fitting the type's layout).
+func tagIsOpaque(tag uint8) bool {
+	for n := 1; n <= 24; n++ {
+		content := make([]byte, n)
+		for i := range content {
+			content[i] = byte(0x21 + (i*7+n)%90)
+		}
+		if !tagIsOpaque1(tag, content) {
+			return false
+		}
+	}
+	return true
+}
+
+func tagIsOpaque1(tag uint8, content []byte) (ok bool) {
 	defer func() {
 		if recover() != nil {
 			ok = false
 		}
 	}()
-	content := []byte{0x31, 0x32, 0x33, 0x34, 0x35}
 	var buf bytes.Buffer
 	m := astits.NewMuxer(context.Background(), &buf)
 	es := astits.PMTElementaryStream{ElementaryPID: 0x1ffd, StreamType: astits.StreamTypeH264Video,
@@ -120,8 +134,11 @@ func tagIsOpaque(tag uint8) (ok bool) {
 		if len(d.PMT.ElementaryStreams) != 1 || len(d.PMT.ElementaryStreams[0].ElementaryStreamDescriptors) != 1 {
 			return false
 		}
+		// exactly the opaque form and nothing besides it (a typed view added next to Unknown
+		// disqualifies the tag as well)
 		x := d.PMT.ElementaryStreams[0].ElementaryStreamDescriptors[0]
-		return x.Tag == tag && x.Unknown != nil && bytes.Equal(x.Unknown.Content, content)
+		want := &astits.Descriptor{Tag: tag, Length: uint8(len(content)), Unknown: &astits.DescriptorUnknown{Tag: tag, Content: content}}
+		return core.Dump(x) == core.Dump(want)
 	}
 	return false
 }
